@@ -289,3 +289,48 @@ pub fn capi(t: &[&str]) -> String {
         format!("ok {}", serde_json::to_string(&Value::Object(res)).unwrap())
     }
 }
+
+/// capifile <hex | missing>: the bytes written to a file (or a path that does not exist) read through
+/// dovi_parse_rpu_bin_file: error string, length, every element written back with dovi_write_rpu,
+/// then the list freed exactly once with dovi_rpu_list_free
+pub fn capifile(t: &[&str]) -> String {
+    let path = std::env::temp_dir().join(format!("dvh_capifile_{}.bin", std::process::id()));
+    if t[1] == "missing" {
+        let _ = std::fs::remove_file(&path);
+    } else {
+        std::fs::write(&path, unhex(t[1])).unwrap();
+    }
+    std::env::remove_var("DOVI_TOOL_VERIF_CHUNK_SIZE");
+    let cpath = std::ffi::CString::new(path.to_str().unwrap()).unwrap();
+    unsafe {
+        let lp = dovi_parse_rpu_bin_file(cpath.as_ptr());
+        if lp.is_null() {
+            let _ = std::fs::remove_file(&path);
+            return "ok null".into();
+        }
+        let l = &*lp;
+        let err = if l.error.is_null() { Value::Null } else { json!(CStr::from_ptr(l.error).to_string_lossy()) };
+        let mut items: Vec<Value> = Vec::new();
+        if !l.list.is_null() {
+            for i in 0..l.len {
+                let rp = *l.list.add(i);
+                items.push(data_hex(dovi_write_rpu(rp)));
+            }
+        }
+        // the Rust API on the same file
+        let rust = if path.is_file() {
+            match dolby_vision::rpu::utils::parse_rpu_file(&path) {
+                Ok(rpus) => json!({"ok": true, "items": rpus.iter().map(|r| match r.write_rpu() { Ok(d) => json!(hex(&d)), Err(_) => Value::Null }).collect::<Vec<_>>()}),
+                Err(_) => json!({"ok": false}),
+            }
+        } else {
+            json!({"ok": false})
+        };
+        let res = json!({"error": err, "len": l.len, "list_null": l.list.is_null(), "items": items, "rust": rust});
+        // progress marker before the free: a fault inside dovi_rpu_list_free is then attributable
+        eprintln!("capifile: freeing");
+        dovi_rpu_list_free(lp);
+        let _ = std::fs::remove_file(&path);
+        format!("ok {}", serde_json::to_string(&res).unwrap())
+    }
+}
